@@ -460,7 +460,7 @@ func (n *NotifyRecorder) OnRelayPullStop(info base.PullStopInfo) {
 	n.add(Event{Kind: "pull_stop", SessionID: info.SessionId, Stream: info.StreamName, Protocol: info.Protocol})
 }
 func (n *NotifyRecorder) OnRtmpConnect(info base.RtmpConnectInfo) {
-	n.add(Event{Kind: "rtmp_connect", SessionID: info.SessionId})
+	n.add(Event{Kind: "rtmp_connect", SessionID: info.SessionId, Stream: info.App})
 }
 func (n *NotifyRecorder) OnHlsMakeTs(info base.HlsMakeTsInfo) {
 	n.add(Event{Kind: "hls_make_ts", Stream: info.StreamName})
